@@ -432,9 +432,20 @@ def entails(st, p, extra=()):
     cons, atoms = relevant(st, p.atoms(), extra=list(extra))
     if bounds_prove(cons, _as_con(p)):
         return True
-    cons = cons + [_as_con(neg)]  # (its atoms are the goal's: already inside the cone)
-    lem = product_lemmas(st, cons)
-    return infeasible(cons + lem)
+    cons2 = cons + [_as_con(neg)]  # (its atoms are the goal's: already inside the cone)
+    lem = product_lemmas(st, cons2)
+    if infeasible(cons2 + lem):
+        return True
+    # integers: x <= y together with a recorded x != y gives x < y  (goal d + 1 <= 0 with d <= 0 known and d != 0 noted)
+    nq = st.notes.get("neq") if hasattr(st, "notes") else None
+    if nq:
+        d = p - 1
+        for q in nq:
+            if q == d or q == -d:
+                if bounds_prove(cons, _as_con(d)) or infeasible(cons + [_as_con((-d) + 1)] + product_lemmas(st, cons + [_as_con((-d) + 1)])):
+                    return True
+                break
+    return False
 
 
 def product_lemmas(st, cons):
